@@ -76,6 +76,36 @@ fn tables(run: &Arc<Run>) -> Vec<Table> {
         up[i] = 1000 + i as u32;
         down[i] = 5000 - i as u32;
     }
+    // two interleaved chains: EOF (weight 1) with 1, 2, 4, ... and, hanging off a 1-branch next to
+    // it, 3, 3, 6, 12, ...; both the EOF code (about 19 bits) and the deepest code of the second
+    // chain end in long runs of zeros, so that input ending inside such a symbol needs more than
+    // three bytes of implied zero padding to finish the symbol and then reach EOF
+    let mut two_chains = [0u32; 256];
+    {
+        const CHAIN: usize = 14;
+        let mut k = 0;
+        for i in 0..CHAIN {
+            two_chains[k] = 1u32 << i;
+            k += 1;
+        }
+        two_chains[k] = 3;
+        k += 1;
+        for i in 0..CHAIN - 1 {
+            two_chains[k] = 3u32 << i;
+            k += 1;
+        }
+        // balanced blocks, each a little heavier than everything to its left, so that the two
+        // chains stay on the light side all the way up to the root
+        for (b, size) in [128usize, 64, 32, 4].iter().enumerate() {
+            let total = ((1u32 << (b + 3)) - 1) << (CHAIN - 1);
+            for _ in 0..*size {
+                two_chains[k] = total / *size as u32;
+                k += 1;
+            }
+        }
+        assert_eq!(k, 256);
+    }
+    vecs.push(("two-chains-eof-all-zero".into(), two_chains));
     vecs.push(("offset-ramp-up".into(), up));
     vecs.push(("offset-ramp-down".into(), down));
     vecs.push(("ramp".into(), ramp));
@@ -109,6 +139,9 @@ fn tables(run: &Arc<Run>) -> Vec<Table> {
                 let mut e: Vec<u8> = Vec::with_capacity(16);
                 let eof_zero = h.compress(&[], &mut e).map(|c| c.iter().all(|&b| b == 0)).unwrap_or(false);
                 run.class(&format!("table-shape:eof-code-all-zero={}", eof_zero), || json!({"table": name.clone()}));
+                if eof_zero {
+                    run.class(&format!("table-shape:all-zero-eof-code-of-{}-bytes", e.len()), || json!({"table": name.clone()}));
+                }
                 out.push(Table {
                     name,
                     h,
